@@ -28,9 +28,16 @@ impl Prop for C19 {
 
     fn strategy(profile: &str) -> BoxedStrategy<SimCase> {
         match profile {
-            "sim" => (sim_case(50, 3, true, true), 0usize..400)
-                .prop_map(|(mut c, len)| {
+            "sim" => (sim_case(50, 3, true, true), 0usize..400, 0u8..40)
+                .prop_map(|(mut c, len, corner)| {
                     c.max_trace_length = if len < 200 { 0 } else { len };
+                    // "no limit" written as an enormous bound
+                    match corner {
+                        0 => c.max_trace_length = usize::MAX,
+                        1 => c.max_trace_length = usize::MAX / 2,
+                        2 => c.max_trace_length = 1 << 50,
+                        _ => {}
+                    }
                     c
                 })
                 .boxed(),
@@ -110,6 +117,9 @@ impl Prop for C19 {
             }
         }
         // length bound: the trace is a prefix of the (filtered) unbounded one
+        if len_bound > (1 << 40) {
+            obs.hit("enormous_length_bound");
+        }
         if len_bound > 0 {
             obs.hit("length_bound");
             for (oc, on) in [(false, false), (c.only_client, c.only_network)] {
@@ -157,7 +167,7 @@ impl Prop for C19 {
     }
 
     fn required_classes() -> Vec<&'static str> {
-        vec!["padding_packet", "blocking_or_timer_event", "explicit_pps", "length_bound", "re_parsed"]
+        vec!["padding_packet", "blocking_or_timer_event", "explicit_pps", "length_bound", "enormous_length_bound", "re_parsed"]
     }
 
     fn assumptions() -> Vec<&'static str> {
